@@ -517,8 +517,43 @@ fn ndlaws_ev<T: StratNum>(case: &Value, out: &mut Vec<Value>) {
             }
         }
     }
-    out.push(json!({"ev": "ndlaws", "ty": T::NAME, "axis": axis, "shape": lay.shape(), "lanes": lanes.iter().map(|l| l.iter().map(|x| rank2_of(&rm, x)).collect::<Vec<_>>()).collect::<Vec<_>>(),
-        "res0": res0, "res1": res1, "shape_ok": shape_ok, "failed": failed}));
+    let mut o = json!({"ev": "ndlaws", "ty": T::NAME, "axis": axis, "shape": lay.shape(), "lanes": lanes.iter().map(|l| l.iter().map(|x| rank2_of(&rm, x)).collect::<Vec<_>>()).collect::<Vec<_>>(),
+        "res0": res0, "res1": res1, "shape_ok": shape_ok, "failed": failed});
+    // the NaN-skipping form on the same array with some elements replaced by NaN (f64 storage): q = 0 / q = 1 give each lane's
+    // minimum / maximum over the elements it keeps, lane by lane, whatever the neighbouring lanes hold; -1 = the missing value
+    if T::NAME == "n64" && case.get("nanmask").is_some() {
+        let mask: Vec<usize> = jints(&case["nanmask"]).into_iter().map(|x| x as usize).collect();
+        let fdata: Vec<f64> = data.iter().enumerate().map(|(i, x)| if mask.contains(&i) { nan64() } else { x.to_f64().unwrap() }).collect();
+        let fparent0 = lay.build(&fdata, |_| -1.75);
+        let klanes: Vec<Vec<i64>> = { let v = lay.view(&fparent0); lanes_of(&v, axis).iter().map(|l| l.iter().filter(|x| !x.is_nan()).map(|&x| rank2_of(&rm, &T::from_f64(x).unwrap())).collect()).collect() };
+        let mut s0 = serde_json::Map::new();
+        let mut s1 = serde_json::Map::new();
+        let mut sfailed: Vec<&str> = Vec::new();
+        for &s in STRATS {
+            for (q, dst) in [(0.0, &mut s0), (1.0, &mut s1)] {
+                let mut parent = fparent0.clone();
+                verif_hooks::set_script(vec![], Fallback::Drawn);
+                let r = guarded(|| { let mut v = lay.view_mut(&mut parent); match s {
+                    "lower" => v.quantile_axis_skipnan_mut(Axis(axis), n64(q), &Lower),
+                    "higher" => v.quantile_axis_skipnan_mut(Axis(axis), n64(q), &Higher),
+                    "nearest" => v.quantile_axis_skipnan_mut(Axis(axis), n64(q), &Nearest),
+                    "midpoint" => v.quantile_axis_skipnan_mut(Axis(axis), n64(q), &Midpoint),
+                    _ => v.quantile_axis_skipnan_mut(Axis(axis), n64(q), &Linear),
+                } });
+                verif_hooks::take_log();
+                match r {
+                    Ok(Ok(a)) => { dst.insert(s.to_string(), json!(a.iter().map(|&x| if x.is_nan() { -1 } else { rank2_of(&rm, &T::from_f64(x).unwrap()) }).collect::<Vec<i64>>())); }
+                    _ => { if !sfailed.contains(&s) { sfailed.push(s); } dst.insert(s.to_string(), json!([])); }
+                }
+            }
+        }
+        let m = o.as_object_mut().unwrap();
+        m.insert("klanes".into(), json!(klanes));
+        m.insert("sres0".into(), Value::Object(s0));
+        m.insert("sres1".into(), Value::Object(s1));
+        m.insert("sfailed".into(), json!(sfailed));
+    }
+    out.push(o);
 }
 
 pub fn run(case: &Value, params: &Params, out: &mut Vec<Value>) {
@@ -709,7 +744,12 @@ pub fn gen(seed: u64, count: usize, tier: &str, params: &Params) -> Vec<Value> {
                 let fancy = rng.chance(1, 2);
                 let lay = random_lay(&mut rng, &shape, fancy);
                 let data: Vec<i64> = (0..n).map(|_| rng.range(0, 60)).collect();
-                cases.push(json!({"ev": "ndlaws", "ty": *rng.pick(&["i8", "u8", "i64", "n64"]), "lay": lay.to_json(), "axis": axis, "data": data}));
+                let ty = *rng.pick(&["i8", "u8", "i64", "n64", "n64"]);
+                let mut c = json!({"ev": "ndlaws", "ty": ty, "lay": lay.to_json(), "axis": axis, "data": data});
+                // n64: some elements become NaN for the NaN-skipping pass (lanes shortened by different amounts next to complete ones)
+                if ty == "n64" { let total = c["data"].as_array().unwrap().len(); let k = rng.below(total as u64 / 2 + 1) as usize;
+                                 let mask: Vec<i64> = (0..k).map(|_| rng.below(total.max(1) as u64) as i64).collect(); c["nanmask"] = json!(mask); }
+                cases.push(c);
             }
             "qlaws" if rng.chance(1, 12) => {
                 // a signed 8-bit lane with neighbours more than i8::MAX apart: Linear with fractions <= 0.3 is representable
